@@ -7,6 +7,7 @@ import (
 	"io"
 	"math/rand"
 	"runtime/debug"
+	"time"
 
 	"github.com/la5nta/wl2k-go/lzhuf"
 
@@ -18,17 +19,36 @@ import (
 
 // CompressResult is what was observed while driving lzhuf.Writer.
 type CompressResult struct {
-	Out      []byte
-	WriteErr string // a Write that did not return (len(p), nil): description, else ""
-	CloseErr error
-	Panic    *vrt.Violation
+	Out       []byte
+	WriteErr  string // a Write that did not return (len(p), nil): description, else ""
+	CloseErr  error
+	Panic     *vrt.Violation
+	Spun      bool // the call burnt SpinCPU of CPU time without returning (worker must be retired)
+	Abandoned bool // the call did not return within SpinWall without burning that CPU (inconclusive)
 }
 
 // OK reports whether every call succeeded.
-func (c CompressResult) OK() bool { return c.Panic == nil && c.WriteErr == "" && c.CloseErr == nil }
+func (c CompressResult) OK() bool {
+	return c.Panic == nil && c.WriteErr == "" && c.CloseErr == nil && !c.Spun && !c.Abandoned
+}
 
 // Compress feeds in to a fresh lzhuf.Writer in the given write sizes (nil = one Write) and closes it.
 func Compress(in []byte, crc bool, parts []int) (res CompressResult) {
+	var r CompressResult
+	returned, spun := vrt.CPUGuard(func() { r = compressRaw(in, crc, parts) }, SpinCPU, SpinWall)
+	if !returned {
+		return CompressResult{Spun: spun, Abandoned: !spun}
+	}
+	return r
+}
+
+// SpinCPU / SpinWall: a codec call that burns this much CPU without returning spins (see vrt.CPUGuard).
+var (
+	SpinCPU  = 8 * time.Second
+	SpinWall = 240 * time.Second
+)
+
+func compressRaw(in []byte, crc bool, parts []int) (res CompressResult) {
 	defer func() {
 		if r := recover(); r != nil {
 			v := vrt.PanicViolation(r, debug.Stack())
@@ -152,11 +172,22 @@ type ReadResult struct {
 	CloseErr    error
 	Panic       *vrt.Violation
 	PanicIn     string // NewReader | Read | Close
+	Spun        bool   // the call burnt SpinCPU of CPU time without returning (worker must be retired)
+	Abandoned   bool   // the call did not return within SpinWall without burning that CPU (inconclusive)
 }
 
 // Decompress runs a fresh lzhuf.Reader over stream and records what it does. Close is always
 // called when the Reader could be constructed and did not panic.
 func Decompress(stream []byte, crc bool, src Source, plan ReadPlan, lim Limits) (res ReadResult) {
+	var r ReadResult
+	returned, spun := vrt.CPUGuard(func() { r = decompressRaw(stream, crc, src, plan, lim) }, SpinCPU, SpinWall)
+	if !returned {
+		return ReadResult{Spun: spun, Abandoned: !spun}
+	}
+	return r
+}
+
+func decompressRaw(stream []byte, crc bool, src Source, plan ReadPlan, lim Limits) (res ReadResult) {
 	stage := "NewReader"
 	defer func() {
 		if r := recover(); r != nil {
